@@ -363,6 +363,25 @@ def stepMatch (mlTok lsTok : String) (obs : List String) : List Msg :=
     expectEq "match.overall" (if model then "1" else "0") overall ++ expectEq "match.bits" (bitStr specBits) bits ++ perM ++ conj ++ tags
   | _, _ => [.diff "parse" "?" mlTok]
 
+/-- the API's alert filter must mean what `Matchers.Matches` means (C16: "routes, silences, inhibition rules and
+    API filters all use this same meaning") -/
+def stepApiMatch (mlTok lsTok : String) (obs : List String) : List Msg :=
+  match parseML mlTok, obs with
+  | some ms, [api, anch] =>
+    let ls := parseLS lsTok
+    let ac := orcChars anch
+    if !(orcShapeOK ms ac) then [.diff "protocol" "oracle-shape" anch] else
+    if ac.any (· = 'E') ∨ api = "S" then [.tag "apimatch:skipped"] else
+    let fm := fmOf (orcTable ms ls ac)
+    let model := matchesAll fm ms ls
+    if api = "E" then [.tag "apimatch:filter-refused"] else
+    (if decide (api = "1") = model then [] else
+      [Msg.propfail "matches_spec" "api-filter"
+        s!"GET /api/v2/alerts?filter={mlTok} on an alert with labels {lsTok}: the API {if api = "1" then "lists" else "hides"} it, Matchers.Matches (spec) says {model}"])
+    ++ [.tag (if model then "apimatch:true" else "apimatch:false")]
+    ++ (if ms.any (fun m => m.op.isRegex ∧ hasCp (ls.get m.name) 10) then [.tag "apimatch:value-newline"] else [])
+  | _, _ => [.diff "parse" "?" mlTok]
+
 def stepMset (setTok lsTok : String) (obs : List String) : List Msg :=
   match obs with
   | [res, orcs] =>
@@ -391,6 +410,7 @@ def step (_ : Unit) (op obs : List String) : Unit × List Msg :=
   | ["parse", inp] => stepParse inp obs
   | ["match", ml, ls] => stepMatch ml ls obs
   | ["mset", set, ls] => stepMset set ls obs
+  | ["apimatch", ml, ls] => stepApiMatch ml ls obs
   | _ => [.diff "parse" "?" (" ".intercalate op)])
 
 def engine : Engine Unit where
